@@ -186,6 +186,8 @@ def run(ctx):
             ctx.go_test("./streampool", run="TestStress$", env={"VERIF_REPLAY_SEED": obj["runSeed"], "VERIF_RUN_LEN": obj["ops"], "VERIF_RUNS": 1})
         elif kind == "multiqueue":
             ctx.go_test("./streampool", run="TestMultiQueue$", env={"VERIF_REPLAY_SEED": obj["runSeed"], "VERIF_RUN_LEN": obj["len"], "VERIF_RUNS": 1})
+        elif kind == "sync-handlemessage":
+            run_sync_wiring(ctx)
         elif kind == "trace" and obj.get("what") == "multiqueue":
             run_multiqueue(ctx, False, mc=False)
         elif kind == "trace":
@@ -195,6 +197,9 @@ def run(ctx):
             ctx.go_test("./streampool", run="TestReplay$")
         return
 
+    if os.environ.get("VERIF_C19_ONLY") == "mq":   # development only
+        run_multiqueue(ctx, thorough)
+        return
     # ---- 1. the design, exhaustively
     runs, plans_mod = (thorough_runs() if thorough else (QUICK, plan_module({})))
     covered, actions = set(), set()
@@ -214,14 +219,18 @@ def run(ctx):
     gens = [("StreamPoolGen_q.cfg", 300 if thorough else 60, 45), ("StreamPoolGen_dial.cfg", 200 if thorough else 40, 45)]
     if thorough:
         gens.append(("StreamPoolGen_t.cfg", 300, 70))
+    dirs = []
     for cfg, num, depth in gens:
+        d = os.path.join(emit, cfg.replace(".cfg", ""))
+        os.makedirs(d)
+        dirs.append(d)
         g = ctx.tlc("streampool", "StreamPoolGen", cfg, workers=1, simulate=num, depth=depth, deadlock=False,
-                    env={"VERIF_EMIT_DIR": emit}, timeout=3000, count=False, name="gen:" + cfg)
+                    env={"VERIF_EMIT_DIR": d}, timeout=3000, count=False, name="gen:" + cfg)
         if g.timed_out or (g.error and g.error != "other") or g.exit not in (0,):
             raise CheckBroken("behaviour generation failed (%s): %s\n%s" % (cfg, g.error, g.out[-2000:]))
-    if not os.listdir(emit):
-        raise CheckBroken("no behaviours emitted")
-    ctx.go_test("./streampool", run="TestReplay$", env={"VERIF_BEHAVIOURS": emit}, timeout=2400)
+        if not os.listdir(d):
+            raise CheckBroken("no behaviours emitted by %s" % cfg)
+    ctx.go_test("./streampool", run="TestReplay$", env={"VERIF_BEHAVIOURS": ":".join(dirs)}, timeout=2400)
 
     # ---- 3. code -> spec
     run_traces(ctx, thorough)
@@ -248,6 +257,15 @@ def run_multiqueue(ctx, thorough, mc=True):
     validate_trace(ctx, "MultiQueueTrace", "MultiQueueTrace.cfg", trace, "trace-validation (multiqueue)", "multiqueue",
                    lambda: open(trace).read().splitlines())
     ctx.cov["trace_events_validated"] = ctx.cov.get("trace_events_validated", 0) + int(rep["extra"].get("mq_trace_events", 0))
+    run_sync_wiring(ctx)
+
+
+def run_sync_wiring(ctx):
+    """commonspace/sync wires the multiqueue behind HandleMessage (queue size 100, overflow swallowed):
+    scenario test injected into the package (uses its own test fixture)."""
+    ctx.go_test("./commonspace/sync/", run="TestVerifC19HandleMessage$", in_repo=True, timeout=900,
+                overlay={"commonspace/sync/zz_verif_c19_test.go": os.path.join(VERIF, "harness", "inpkg", "sync", "zz_verif_c19_test.go")},
+                name="commonspace/sync HandleMessage (overlay)")
 
 
 def run_traces(ctx, thorough):
